@@ -1267,41 +1267,71 @@ def m_atomic(op):
     return m
 
 
+def split_option(eng, st, o):
+    """[(state, 'Some' | 'None', payload)]: a concrete Option as it is; an opaque one splits the path on its discriminant."""
+    if o[0] == "adt" and o[1] == "core::option::Option":
+        return [(st, o[2], o[3][0] if o[2] == "Some" else None)]
+    if o in st.known:
+        v = st.known[o]
+        return [(st, v, ("vfield", o, "Some", 0) if v == "Some" else None)]
+    out = []
+    for v in ("Some", "None"):
+        s = st.fork()
+        fo = eng.freeze(s, o)
+        s.known[o] = v
+        s.known[fo] = v
+        s.cond.append((("discr", fo), v))
+        out.append((s, v, ("vfield", fo, "Some", 0) if v == "Some" else None))
+    return out
+
+
 def m_option_map_or(eng, st, args, info):
     o, default, f = args
-    if o[0] == "adt" and o[2] == "None":
-        return [(st, default)]
-    if o[0] == "adt" and o[2] == "Some":
-        return eng.call_value(st, f, [o[3][0]], info["depth"])
-    return [(st, ("map_or", o, default, f))]
+    out = []
+    for s, v, payload in split_option(eng, st, o):
+        if v == "None":
+            out.append((s, default))
+        else:
+            out.extend(eng.call_value(s, f, [payload], info["depth"]))
+    return out
 
 
 def m_option_map(eng, st, args, info):
     o, f = args
-    if o[0] == "adt" and o[2] == "None":
-        return [(st, OPT_NONE)]
-    if o[0] == "adt" and o[2] == "Some":
-        res = eng.call_value(st, f, [o[3][0]], info["depth"])
-        return [(s, _opt_some(r)) for s, r in res]
-    return [(st, ("opt_map", o, f))]
+    out = []
+    for s, v, payload in split_option(eng, st, o):
+        if v == "None":
+            out.append((s, OPT_NONE))
+        else:
+            out.extend((s2, _opt_some(r)) for s2, r in eng.call_value(s, f, [payload], info["depth"]))
+    return out
+
+
+def m_option_is_some_and(eng, st, args, info):
+    o, f = args
+    out = []
+    for s, v, payload in split_option(eng, st, o):
+        if v == "None":
+            out.append((s, FALSE))
+        else:
+            out.extend(eng.call_value(s, f, [payload], info["depth"]))
+    return out
 
 
 def m_unwrap_or_else(eng, st, args, info):
     o, f = args
-    if o[0] == "adt" and o[2] == "Some":
-        return [(st, o[3][0])]
-    if o[0] == "adt" and o[2] == "None":
-        return eng.call_value(st, f, [], info["depth"])
-    return None
+    out = []
+    for s, v, payload in split_option(eng, st, o):
+        if v == "Some":
+            out.append((s, payload))
+        else:
+            out.extend(eng.call_value(s, f, [], info["depth"]))
+    return out
 
 
 def m_unwrap_or(eng, st, args, info):
     o, d = args
-    if o[0] == "adt" and o[2] == "Some":
-        return [(st, o[3][0])]
-    if o[0] == "adt" and o[2] == "None":
-        return [(st, d)]
-    return None
+    return [(s, payload if v == "Some" else d) for s, v, payload in split_option(eng, st, o)]
 
 
 def m_bool_then(eng, st, args, info):
@@ -1643,6 +1673,7 @@ DEFAULT_MODELS = {
     "core::option::Option::unwrap_unchecked": m_option_unwrap_unchecked,
     "core::option::Option::map_or": m_option_map_or,
     "core::option::Option::map": m_option_map,
+    "core::option::Option::is_some_and": m_option_is_some_and,
     "core::option::Option::is_some": m_option_is("Some"),
     "core::option::Option::is_none": m_option_is("None"),
     "core::option::Option::ok_or": m_ok_or,
